@@ -73,3 +73,8 @@ claim('C19', 'fault_enumeration',
       'Faults at open() only; gzip module and file system trusted. The multi-pass bamSplitByTag loop and a real RLIMIT_NOFILE are not exercised.',
       'model-based property-based testing (Hypothesis operation sequences + generated fault plans) against a dictionary model',
       'DESIGN.md section 4, C19')
+claim('C18', 'exploration',
+      'Hypothesis-generated histories over generated VCFs (several contigs incl. a cache-skipped one, 1..4 samples, phased/unphased, missing and multi-base alleles, multi-allelic and monomorphic records, sample selection, ignored conversions): sessions create resolvers in all four lazyLoad/use_cache combinations over one persistent cache directory and tour the contigs with returns to evicted contigs and contigs absent from the VCF; every getAllelesAt / has_location answer is compared with an eager reference resolver and with the harness\'s own reading of the VCF text.',
+      'Trusted: pysam VariantFile / tabix. Positions >= 0; one configuration per cache directory; multi-base sites only soundness + mode agreement.',
+      'model-based property-based testing (Hypothesis operation sequences): differential between loading modes + reference reading of the VCF',
+      'DESIGN.md section 4, C18')
